@@ -2,10 +2,12 @@
 from vlib import run_pair
 
 PID = "C05"
-MODEL_VOS = ["model/ServerFront.vo"]
+MODEL_VOS = ["model/ServerFront.vo", "model/UserTable.vo"]
 ASSUMPTIONS = [
     "INT-CTXT of the AEAD is a hypothesis of every theorem (open_forged_none): a 72-byte header that no holder of a registered key produced opens under no registered key; 'holds no credential' means the first 72 bytes sent are not such a header",
     "user discovery: in the base theorems the candidate order is an arbitrary function with the premise cands_registered (only registered keys are tried); in C05_silent_tcp_discover / C05_silent_udp_discover / C05_attribution that premise is PROVED: the front door is instantiated with the discovery model of C07 (model/Discover.v try_state over one published generation of users, arbitrary hint function, arbitrary source-cache content, hint-mandatory switch), leaving INT-CTXT as the only cryptographic premise (plus, on UDP, the state invariant that existing sessions belong to registered users, which every step preserves)",
+    "management events: which credentials are registered is a function of what the operator publishes (model/UserTable.v: compile_users = the admission rule, order and ids of buildState/buildCredential; published = the LAST list handed to SetUsers decides, the empty list included); C05_silent_after_reload(_udp) restate the silent-server theorems over every start list and reload history under key separation of the AEAD (a header sealed under one key opens under no other); C05_admission_rule / C05_no_secret_no_credential / C05_duplicate_names_not_registered say that only entries with a secret become credentials. Tied to the code by the driver: after every SetServerUsers (reload histories and malformed configurations, both transports) the real registry's compiled table is compared with compile_users of the last list, and handshakes sealed with removed, never-registered, name-derived and skipped-entry credentials must meet silence",
+    "outside the theorems and only reported (report.json notes removed-user-live-association/*): a user removed while it has a live TCP connection / UDP session - existing ciphers are not re-checked against the registry, so the removed user can still open NEW sessions over that underlay; the UDP theorem states this as its premise on existing sessions, the TCP theorems speak of a fresh connection",
     "C05_attribution links C05 to C07: a created session's cipher is that of the user try_state attributes the header to (registered, key opens the header, hint-matching when hints are mandatory or when some hint-matching registered user's key opens it); one user generation per statement (reloads are C07's discover_loop theorems)",
     "non-interference on UDP assumes a replay cache without false positives (proved for pkg/replay in props/C06.v) and that the first 16 bytes of a genuine datagram are never presented from another source address (a copy from elsewhere is a replay: C06)",
     "the model covers the first segment of a TCP connection and every datagram at the UDP socket; what a created session does afterwards is C01/C02; the length and timing of the randomised drain (reads only) are not modelled",
@@ -23,7 +25,7 @@ def search(ctx):
 
 
 MANIFEST = dict(
-    text="Theorems over a model of the server's front door (first TCP segment: ReadFull of 72 bytes, replay cache, user discovery, receive/send cipher, validateNewServerSessionSegment; every UDP datagram: length test, replay cache with the source address as tag, existing-session ciphers, discovery, unknown-session close request) proved for all byte strings, datagram histories, replay-cache answers and ciphers under the INT-CTXT hypothesis; the premise that discovery only tries registered keys is discharged by instantiating the front door with the user-discovery model of C07 (tryState), which also yields the attribution of a created session to a registered, authenticating, hint-preferred user; constants regenerated from /repo; a real server on an in-memory network under virtual time is probed with every prefix and every single-bit flip of captured genuine headers, random strings and well-formed foreign-credential handshakes next to a genuine client, each case judged against the property text and against the extracted model.",
+    text="Theorems over a model of the server's front door (first TCP segment: ReadFull of 72 bytes, replay cache, user discovery, receive/send cipher, validateNewServerSessionSegment; every UDP datagram: length test, replay cache with the source address as tag, existing-session ciphers, discovery, unknown-session close request) proved for all byte strings, datagram histories, replay-cache answers and ciphers under the INT-CTXT hypothesis; the premise that discovery only tries registered keys is discharged by instantiating the front door with the user-discovery model of C07 (tryState), which also yields the attribution of a created session to a registered, authenticating, hint-preferred user; the registered set itself is modelled as a function of the operator's reload history and of the admission rule for user entries (only an entry with a secret becomes a credential; the last published list decides), with the silent-server theorems restated over all histories and the real registry compared with the model after every publication; constants regenerated from /repo; a real server on an in-memory network under virtual time is probed with every prefix and every single-bit flip of captured genuine headers, random strings and well-formed foreign-credential handshakes next to a genuine client, each case judged against the property text and against the extracted model.",
     note="INT-CTXT of XChaCha20-Poly1305 is assumed (visible hypothesis). The driver observes the simulated network's event log, Accept and ExportSessionInfoList; the drain's timing is not modelled.",
     technique="Coq proof (case analysis / induction over histories, abstract AEAD and replay cache as section hypotheses) + probing of the real server on simnet under faketime with the extracted model as predictor",
 )
